@@ -68,4 +68,13 @@ CHECKS = {
         "rotation over N consecutive views for N<=256 and over N consecutive heights for N<=512; plus rapid-drawn (N, height, view) triples checked against a big-integer reference; "
         "non-trivial = N>1 or negative (h-v) or h>=2^31; cases are distinct by construction (grid points) / by (N,h,v) for drawn ones",
         2000, 20000, assumptions=["F_ref is computed by search (largest f with 3f+1<=N), the primary by 64-bit and big-integer arithmetic"]),
+    "C14": rapid("TestC14",
+        "case = one single-node script (driver B: N 1..7, primary and backup roles, responses after drawn delays, change views, recovery requests, transactions, 1-3+ heights, dynamic block time 1/4) executed three times: at epoch E, at E+delta (delta = k*7*999983 s, a multiple of every increment in use, |k| up to 300, past and future) and again at E after the wall clock moved; "
+        "oracle: identical sequences of payload summaries (hashes up to renaming), Timer.Reset/Extend arguments and accepted blocks, absolute timestamps shifted by exactly delta; "
+        "non-trivial = the script had a primary round with a response after a non-zero delay followed by a Reset (the RTT estimate feeds a timer); distinct = hash of the choice stream",
+        600, 15000, assumptions=["the harness value types and callbacks are themselves clock-free; crypto/rand.Reader is replaced by a deterministic reader"]),
+    "C15": rapid("TestC15",
+        "case = one single-node script in which the node proposes as primary (at Start, after Reset at the timer, in views >0), with previous-block timestamps before/around/after the clock, increments {1,7,999983,1e6,1e9} ns, pools of 0..20 transactions with a drawn per-block limit, clock stepping backwards; "
+        "non-trivial = a proposal was made with an unaligned clock and a non-empty pool, or with the clock at or behind the previous block's timestamp; distinct = hash of the choice stream",
+        1500, 40000, assumptions=["the zone prev < trunc(clock) < prev+inc is only bounded (two readings of the statement)"]),
 }
